@@ -10,6 +10,7 @@
 package props
 
 import (
+	"bytes"
 	"encoding/json"
 	"fmt"
 	"hash/fnv"
@@ -254,8 +255,12 @@ func saveReplay(c *Case, err error) {
 	if cc.Spec != nil {
 		cc.SpecGo = cc.Spec.String()
 	}
-	b, _ := json.MarshalIndent(&cc, "", " ")
-	_ = os.WriteFile(path, b, 0o644)
+	var buf bytes.Buffer
+	enc := json.NewEncoder(&buf)
+	enc.SetEscapeHTML(false)
+	enc.SetIndent("", " ")
+	_ = enc.Encode(&cc)
+	_ = os.WriteFile(path, buf.Bytes(), 0o644)
 }
 
 func loadCase(path string) (*Case, error) {
